@@ -20,6 +20,8 @@ from __future__ import annotations
 
 from hypothesis import strategies as st
 
+from vlib import wire as wire_mod
+
 from vlib import confmodel as cm
 from vlib import simconf
 from vlib.harness import Watch, bootstrapped_pipe
@@ -598,6 +600,203 @@ def _fixed_cases():
         yield {"opts": table, "steps": [st_, {"op": "needs_save"}, sv(False, False), {"op": "needs_save"}, sv(True)]}
 
 
+# --------------------------------------------------------------------------- changes made while a save is in flight
+#
+# Driver "inflight": {"pre": [op...], "during": [op...], "accept": bool, "after": [op...]}
+#   op = ["assign", name, value] | ["append", "Log", line] | ["setitem", "Log", i, line] | ["insert", "Log", i, line]
+# pre-ops, save() whose acknowledgement is *held back*, during-ops while the SETCONF is unanswered, then Tor's
+# answer (250 or 552), after-ops, and saves until nothing is pending (at most 3).  Oracle (end to end, differential
+# against the reference store): every change made at any point is in Tor's configuration at the end ("changes ...
+# are not lost"), needs_save() is False, reads show the final values, and no save wrote more than one SETCONF.
+# Lists are never emptied here (that class is the known finding of driver "history").
+
+INFLIGHT_OPTS = [
+    {"name": "Log", "type": "LineList", "value": ["notice stdout"], "default": None, "alt": None},
+    {"name": "Nickname", "type": "String", "value": ["relay0"], "default": None, "alt": None},
+    {"name": "NumCPUs", "type": "Integer", "value": ["2"], "default": ["0"], "alt": None},
+    {"name": "ContactInfo", "type": "String", "value": None, "default": None, "alt": None},
+]
+_LOG_LINES = ["info file /tmp/a", "debug stderr", "warn syslog", "notice file /var/log/x"]
+
+
+def inflight_cases():
+    scalar = st.one_of(
+        st.tuples(st.just("assign"), st.just("Nickname"), st.sampled_from(["alpha", "beta", "gamma"])),
+        st.tuples(st.just("assign"), st.just("NumCPUs"), st.sampled_from([1, 3, 8])),
+        st.tuples(st.just("assign"), st.just("ContactInfo"), st.sampled_from(["me", "you@example.org"])),
+    )
+    lst = st.one_of(
+        st.tuples(st.just("append"), st.just("Log"), st.sampled_from(_LOG_LINES)),
+        st.tuples(st.just("insert"), st.just("Log"), st.integers(0, 3), st.sampled_from(_LOG_LINES)),
+        st.tuples(st.just("setitem"), st.just("Log"), st.integers(0, 3), st.sampled_from(_LOG_LINES)),
+        st.tuples(st.just("assign"), st.just("Log"), st.lists(st.sampled_from(_LOG_LINES), min_size=1, max_size=3)),
+    )
+    op = st.one_of(scalar, lst).map(list)
+    return st.builds(lambda pre, during, acc, after: {"pre": pre, "during": during, "accept": acc, "after": after},
+                     st.lists(op, min_size=1, max_size=3), st.lists(op, max_size=3), st.booleans(),
+                     st.lists(op, max_size=2))
+
+
+def drive_inflight(case):
+    from txtorcon import TorConfig
+    res = Result()
+    sim = simconf.SimConf(INFLIGHT_OPTS, defaults_supported=True)
+    hold = {"on": False, "held": []}
+
+    def handler(line):
+        r = sim.handler(line)
+        if hold["on"] and line.upper().startswith("SETCONF") and r is not NotImplemented:
+            hold["held"].append(r if isinstance(r, bytes) else wire_mod.encode_reply(r))
+            return None
+        return r
+    pipe, srv = bootstrapped_pipe(handler)
+    w = Watch(TorConfig.from_protocol(pipe.proto))
+    pipe.pump()
+    if not w.succeeded:
+        raise HarnessError("TorConfig bootstrap failed: %r" % (w.outcome(),))
+    cfg = w.result
+    model = {"Log": ["notice stdout"], "Nickname": "relay0", "NumCPUs": 2, "ContactInfo": None}
+    touched = set()
+    assigned_pending = set()    # options with an assignment that Tor has not acknowledged yet
+
+    def apply(op, phase):
+        kind, name = op[0], op[1]
+        try:
+            if kind == "assign":
+                v = op[2]
+                setattr(cfg, name, list(v) if isinstance(v, list) else v)
+                model[name] = list(v) if isinstance(v, list) else v
+                assigned_pending.add(name)
+            else:
+                cur = getattr(cfg, name)
+                if name in assigned_pending or [str(x) for x in cur] != [str(x) for x in model[name]]:
+                    # documented: reads return the running value, not a pending *assignment*; an in-place edit
+                    # of an option with a pending assignment is an API-inherent ambiguity -> excluded
+                    return "ambiguous"
+                if kind == "append":
+                    cur.append(op[2])
+                    model[name] = model[name] + [op[2]]
+                elif kind == "insert":
+                    i = op[2] % (len(model[name]) + 1)
+                    cur.insert(i, op[3])
+                    model[name] = model[name][:i] + [op[3]] + model[name][i:]
+                else:
+                    i = op[2] % len(model[name])
+                    cur[i] = op[3]
+                    model[name] = model[name][:i] + [op[3]] + model[name][i + 1:]
+        except Exception as e:
+            res.bad("inflight-op-raised", "%s op %r raised %r" % (phase, op, e))
+            return "dead"
+        touched.add(name)
+        return None
+
+    def run_ops(ops, phase):
+        for op in ops:
+            r = apply(op, phase)
+            if r:
+                return r
+        return None
+
+    r = run_ops(case["pre"], "pre")
+    if r == "ambiguous":
+        res.excluded.append("in-place-edit-while-assignment-pending")
+        return res
+    if r:
+        return res
+    hold["on"] = True
+    s0 = len(sim.setconfs)
+    if not case["accept"]:
+        sim.reject_next(552, "refused by the reference Tor")
+    try:
+        w1 = Watch(cfg.save())
+    except Exception as e:
+        res.bad("save-raised", repr(e))
+        return res
+    pipe.pump()
+    if w1.fired and hold["held"]:
+        res.bad("save-completed-before-ack", repr(w1.outcome()))
+        return res
+    r = run_ops(case["during"], "during")
+    if r == "ambiguous":
+        res.excluded.append("in-place-edit-while-assignment-pending")
+        return res
+    if r:
+        return res
+    hold["on"] = False
+    sim.cancel_rejects()
+    for b in hold["held"]:
+        pipe.inject(b)
+    pipe.pump()
+    if hold["held"] and w1.fired != 1:
+        res.bad("save-fired-%d-times" % w1.fired, "after Tor answered")
+        return res
+    if hold["held"] and w1.succeeded != case["accept"]:
+        res.bad("save-outcome-wrong", "Tor %s, save() -> %r" % ("accepted" if case["accept"] else "refused", w1.outcome()))
+        return res
+    if case["accept"]:
+        assigned_pending.difference_update(
+            {op[1] for op in case["pre"] if op[0] == "assign"} - {op[1] for op in case["during"] if op[0] == "assign"})
+    r = run_ops(case["after"], "after")
+    if r == "ambiguous":
+        res.excluded.append("in-place-edit-while-assignment-pending")
+        return res
+    if r:
+        return res
+    # save until quiescent
+    for _ in range(3):
+        try:
+            pending = cfg.needs_save()
+        except Exception as e:
+            res.bad("needs-save-raised", repr(e))
+            return res
+        if not pending:
+            break
+        n0 = len(sim.setconfs)
+        wk = Watch(cfg.save())
+        pipe.pump()
+        if len(sim.setconfs) - n0 > 1:
+            res.bad("save-not-one-setconf", repr([x["line"] for x in sim.setconfs[n0:]]))
+            return res
+        if not wk.succeeded:
+            res.bad("accepted-save-not-success", repr(wk.outcome()))
+            return res
+    else:
+        res.bad("pending-after-ack", "needs_save() still True after three acknowledged saves")
+        return res
+    # every change reached Tor
+    lines = [x["line"] for x in sim.setconfs[s0:]]
+    for name in sorted(touched):
+        want = model[name]
+        want_lines = [str(x) for x in want] if isinstance(want, list) else [str(want)]
+        got = sim.get(name)
+        if got != want_lines:
+            tag = "change-lost"
+            if any(op[1] == name for op in case["during"]):
+                tag = "change-made-while-save-in-flight-lost"
+            res.bad(tag, "%s: locally %r, Tor has %r after all saves were acknowledged (SETCONFs: %r; case %r)" % (
+                name, want, got, lines, case))
+        try:
+            rd = getattr(cfg, name)
+            rd = list(rd) if isinstance(want, list) else rd
+            if (isinstance(want, list) and [str(x) for x in rd] != want_lines) or \
+                    (not isinstance(want, list) and str(rd) != str(want)):
+                res.bad("read-after-save-wrong", "%s reads %r, expected %r" % (name, rd, want))
+        except Exception as e:
+            res.bad("read-raised", "%s: %r" % (name, e))
+    res.nontrivial = bool(case["during"]) and bool(hold["held"])
+    if case["during"]:
+        res.label("ops-while-save-in-flight")
+        if any(op[0] != "assign" for op in case["during"]):
+            res.label("in-place-edit-while-save-in-flight")
+        if {op[1] for op in case["during"]} & {op[1] for op in case["pre"]}:
+            res.label("same-option-changed-again-while-in-flight")
+    res.label("inflight-save-" + ("accepted" if case["accept"] else "rejected"))
+    return res
+
+
+DRIVERS["inflight"] = drive_inflight
+
+
 MANIFEST = {
     "text": "Model-based generated-input search (Hypothesis): option tables over every declared type x histories of "
             "attribute assignments, in-place list operations, reads, needs_save() and saves that a reference Tor "
@@ -618,22 +817,28 @@ MANIFEST = {
 
 def run(ctx):
     ctx.enumerate("history", _fixed_cases(), name="fixed-scenarios", exhaustive=False)
-    ctx.search("history", cases(), quick=1200, thorough=3000)
+    ctx.search("history", cases(), quick=1000, thorough=3000)
+    ctx.search("inflight", inflight_cases(), quick=400, thorough=3000)
 
 
 MUTANTS = [
     ("send-on-setattr", "txtorcon/torconfig.py",
      "            self.unsaved[name] = value\n\n        else:\n            super(TorConfig, self).__setattr__(name, value)",
      "            self.unsaved[name] = value\n            self.save()\n\n        else:\n            super(TorConfig, self).__setattr__(name, value)"),
-    ("forget-to-clear-unsaved", "txtorcon/torconfig.py",
-     "        self.__dict__['unsaved'] = {}\n        return self", "        return self"),
-    ("clear-unsaved-on-failure", "txtorcon/torconfig.py",
-     "            d.addCallback(self._save_completed)\n            return d",
-     "            d.addCallback(self._save_completed)\n"
-     "            d.addErrback(lambda f: (self._save_completed(), f)[1])\n            return d"),
+    ("pending-set-not-handed-over", "txtorcon/torconfig.py",
+     "            sent = self.unsaved\n            self.__dict__['unsaved'] = {}\n",
+     "            sent = dict(self.unsaved)\n"),
+    ("clear-pending-on-ack-wholesale", "txtorcon/torconfig.py",
+     "        if not self.protocol:\n            self.__dict__['unsaved'] = {}\n        return self",
+     "        self.__dict__['unsaved'] = {}\n        return self"),
+    ("rejected-changes-not-restored", "txtorcon/torconfig.py",
+     "        for k, v in sent.items():\n            self.unsaved.setdefault(k, v)\n        return fail",
+     "        return fail"),
+    ("rejected-changes-overwrite-newer", "txtorcon/torconfig.py",
+     "            self.unsaved.setdefault(k, v)", "            self.unsaved[k] = v"),
     ("swallow-rejection", "txtorcon/torconfig.py",
-     "            d.addCallback(self._save_completed)\n            return d",
-     "            d.addBoth(self._save_completed)\n            return d"),
+     "        for k, v in sent.items():\n            self.unsaved.setdefault(k, v)\n        return fail",
+     "        for k, v in sent.items():\n            self.unsaved.setdefault(k, v)\n        return self"),
     ("insert-not-tracked", "txtorcon/torconfig.py",
      "    insert = _wrapture(list.insert)", "    insert = list.insert"),
     ("pop-not-tracked", "txtorcon/torconfig.py",
